@@ -26,7 +26,7 @@ RULE = ('templates: random trees over atoms (5 distinct waveforms), sequences, r
         'numpy.int64/int32, float, numpy.float64 or TimeType; 25 % build the template once with structurally equal '
         'sub-templates as the SAME object and re-use it for every fresh instantiation.  Pipelines: none / cleanup / '
         'flatten_and_balance(0..3) / TaborProgram (mode None|SINGLE|ADVANCED, min_seq_len 1..4, max_seq_len 3..8, '
-        'optional cleanup first).  Six deterministic boundary families (the same shapes for every seed, x pipelines): '
+        'optional cleanup first).  Seven deterministic boundary families (the same shapes for every seed, x pipelines): '
         'zero_mid (parameter updated to 0 in the middle of a sequence while the count n+2 / 2n+1 / (m+1)*n / mapped '
         'offset stays positive), vol_neighbour_one (Tabor: volatile table whose count is exactly 1 or 2 at '
         'instantiation next to a fixed table shorter than min_seq_len, on either / both sides; volatile root), '
@@ -34,7 +34,9 @@ RULE = ('templates: random trees over atoms (5 distinct waveforms), sequences, r
         'both levels), shared_before (Tabor: de-duplicated identical sequencer tables before the table with the '
         'volatile entry, the volatile table itself repeated), same_param_twice (one volatile parameter in sibling / '
         'nested counts, swap mapping {n: m, m: n}, n -> 2*n), internal_names (template parameters called '
-        'parent_repetition_count / child_repetition_count).  Plus a stream of single volatile counts updated with '
+        'parent_repetition_count / child_repetition_count), vol_fixed_twin (tables identical except that a count is '
+        'volatile in one and a fixed number of the same value in the other; a volatile count exactly 1 on a loop '
+        'that has to be unrolled).  Plus a stream of single volatile counts updated with '
         'dyadic non-integer values and a make_compatible stream (atoms of 96/192/384/576 samples, minimal waveform '
         'length 96..576, quantum 16/32/64/192; modelled in Coq).  Thorough adds the full pipeline grids of the '
         'families and the exhaustive enumeration of all templates with <= 3 composite nodes (4 composite nodes over a '
@@ -566,9 +568,30 @@ def fam_internal_names():
     return out
 
 
+def fam_vol_fixed_twin():
+    """Tabor: two sequencer tables (or two entries / two advanced entries) that are identical except that a count is
+    volatile in one and a FIXED number with the same value in the other (value coincidence at instantiation); also a
+    volatile count 1 that flatten_and_balance has to unroll (count exactly 1 at instantiation)"""
+    n, m = V_('n'), V_('m')
+    out = []
+    for c0 in (1, 2, 3):
+        twin_e = [R_(C_(2), S_(R_(n, A_(0)), A_(1))), R_(C_(2), S_(R_(C_(c0), A_(0)), A_(1)))]
+        twin_t = [R_(n, S_(A_(0), A_(1))), R_(C_(c0), S_(A_(0), A_(1)))]
+        twin_m = [R_(C_(2), S_(R_(n, A_(0)), A_(1))), R_(C_(2), S_(M_([('m', C_(c0))], R_(m, A_(0))), A_(1)))]
+        for blocks in (twin_e, twin_e[::-1], twin_t, twin_t[::-1], twin_m, twin_e + [R_(C_(3), S_(A_(2), A_(3)))],
+                       [R_(C_(3), S_(A_(2), A_(3)))] + twin_e[::-1]):
+            out.append((S_(*blocks), {'n': c0}, ['n'], [{'n': c0 + 1}, {'n': 1}]))
+    # volatile count exactly 1 on a loop that flatten_and_balance / the Tabor set-up has to unroll or merge
+    for body in (S_(A_(0), R_(C_(2), S_(A_(1), A_(2)))), S_(R_(C_(2), A_(0)), R_(C_(2), S_(A_(1), R_(C_(2), A_(2))))),
+                 R_(C_(2), S_(A_(0), R_(C_(2), A_(1))))):
+        out.append((S_(R_(n, body), A_(3)), {'n': 1}, ['n'], [{'n': 2}, {'n': 1}]))
+        out.append((R_(add_(n, C_(1)), body), {'n': 0}, ['n'], [{'n': 2}]))
+    return out
+
+
 FAMILIES = [('zero_mid', fam_zero_mid), ('vol_neighbour_one', fam_vol_neighbour_one), ('named_maps', fam_named_maps),
             ('shared_before', fam_shared_before), ('same_param_twice', fam_same_param_twice),
-            ('internal_names', fam_internal_names)]
+            ('internal_names', fam_internal_names), ('vol_fixed_twin', fam_vol_fixed_twin)]
 TABOR_FAMS = {'vol_neighbour_one', 'shared_before'}
 
 
@@ -589,10 +612,14 @@ def family_cases(rng, tier):
                     variants.append({'kind': 'tabor', 'cl': cl, 'mode': md, 'mn': mn, 'mx': mx})
             else:
                 pls = TREE_PLS + ['flat0', 'flat3'] if tier == 'thorough' else [TREE_PLS[idx % 4], TREE_PLS[(idx + 1 + idx // 4) % 4]]
+                if fname == 'vol_fixed_twin' and tier != 'thorough':
+                    pls = ['flat1', 'flat2', 'cleanup'] if idx >= 21 else [TREE_PLS[idx % 4]]
                 for pl in dict.fromkeys(pls):
                     variants.append({'kind': 'tree', 'pl': pl})
                 tg = [(mn, mx, cl, md) for mn in (1, 2, 3) for mx in (4, 8) for cl in (True, False) for md in (None, 'single', 'advanced')]
                 pick = tg if tier == 'thorough' else [tg[(idx * 7 + 3) % len(tg)]]
+                if fname == 'vol_fixed_twin' and tier != 'thorough':
+                    pick = [(1, 8, False, None), (1, 8, True, 'advanced'), (2, 6, idx % 2 == 0, None)]
                 for mn, mx, cl, md in pick:
                     variants.append({'kind': 'tabor', 'cl': cl, 'mode': md, 'mn': mn, 'mx': mx})
             for v in variants:
@@ -680,7 +707,7 @@ def small_templates():
 
 def gen_cases(rng, tier, ctx):
     cases = family_cases(rng, tier)
-    n_tree, n_tab = (420, 300) if tier == 'quick' else (3000, 2400)
+    n_tree, n_tab = (380, 260) if tier == 'quick' else (3000, 2400)
     for i in range(n_tree):
         cases.append(gen_one(rng, 'tree', rng.choice([2, 3, 3, 4])))
     for i in range(n_tab):
